@@ -36,13 +36,13 @@ from . import shared
 
 
 def check(repo: Repo, R) -> None:
-    value_dispatch(repo, R)
-    none_skipped(repo, R)
-    prefix_total(repo, R)
-    no_float_detour(repo, R)
-    no_value_memo(repo, R, "C13.7-no-memoisation-by-value")
-    ideal_primitives(repo, R, "C13.5-ideal-primitives-agree-with-reader")
-    to_scalar_shape(repo, R)
+    R.run(value_dispatch, repo, R)
+    R.run(none_skipped, repo, R)
+    R.run(prefix_total, repo, R)
+    R.run(no_float_detour, repo, R)
+    R.run(no_value_memo, repo, R, "C13.7-no-memoisation-by-value")
+    R.run(ideal_primitives, repo, R, "C13.5-ideal-primitives-agree-with-reader")
+    R.run(to_scalar_shape, repo, R)
     R.floor("C13.1-value-dispatch", 8)
     R.floor("C13.4-no-float-detour", 5)
     R.floor("C13.5-ideal-primitives-agree-with-reader", 11)
@@ -109,14 +109,26 @@ def none_skipped(repo: Repo, R):
     rule = "C13.2-none-omitted"
     fx = repo.func(F_EXPORT, "ProtoExporter.export_instance")
     ok = False
+    only = False
+    extra = []
     for lp in au.walk_no_nested(fx.node):
         if isinstance(lp, ast.For) and ast.unparse(lp.iter) == "params.items()":
             if isinstance(lp.target, ast.Tuple) and len(lp.target.elts) == 2:
                 vv = ast.unparse(lp.target.elts[1])
                 apps = pat.find("pinst.parameters.append($P)", lp)
-                # every export inside the loop runs only for values that are not None
+                outer = len(shared.path_conditions(fx.node, lp))
+                # every export inside the loop runs only for values that are not None ...
                 ok = bool(apps) and all(shared.conds_imply(shared.path_conditions(fx.node, c), [(shared.parse_cond(f"{vv} is None"), False)]) is True for c, _b in apps)
+                # ... and for every value that is not None: no other condition stands between a parameter and its export
+                for c, _b in apps:
+                    for t, pol in shared.path_conditions(fx.node, c)[outer:]:
+                        if not (shared._atom(t)[0] == shared._atom(shared.parse_cond(f"{vv} is None"))[0]):
+                            extra.append(("" if pol else "not ") + ast.unparse(t))
+                only = bool(apps) and not extra
+                only = only and not any(isinstance(n, (ast.Break, ast.Return)) for n in au.walk_no_nested(lp) if n is not lp)
     R.check(ok, rule, key_of(fx), fx.site, f"None-valued parameters are skipped before export: {ok}", why="a None parameter is exported as an empty Param (netlisted as a blank value)")
+    R.check(only, rule, key_of(fx, "only-none"), fx.site, f"every parameter whose value is not None is exported — nothing but `is None` decides: {only}" + (f"; also decided by {extra}" if extra else ""),
+            why="a parameter explicitly set to 0, 0.0, False or '' is left out of the instance: the device is netlisted with the model's default instead")
 
 
 def prefix_total(repo: Repo, R):
